@@ -12,7 +12,7 @@ import (
 
 const ruleC14 = "paths of every step-kind sequence (depth<=4) followed by 1..3 functions in every filter/aggregate order, functions inside filter operands, recording functions (each function name occurs once per path, so a name identifies an occurrence); documents where the pre-function path selects 0, 1 or many values, arrays, arrays of arrays. " +
 	"Oracle: SPEC's call log per occurrence (filter function: once per selected value, in order, with that value; aggregate: once with all values, or the single array's elements), results = return values chained left to right, ErrorFunctionFailed when only functions failed. " +
-	"Non-trivial: >=2 values reach the first function, or an aggregate follows a value-group step that is not the first step. Distinct = distinct (path, document, mode)."
+	"Non-trivial: >=2 values reach the first function, or an aggregate follows a value-group step that is not the first step. Distinct = distinct (path, document, mode). In accessor mode every result is read twice through Get before the call logs are compared, and what Get returns is compared with the chained return values."
 
 func drawC14(rt *rapid.T) *Case {
 	g := gen.NewG(rt, gen.PathOpts{Funcs: true, RootOmit: true, FuncPct: 80, OperandFuncPct: 45, MaxSteps: 4})
